@@ -1,0 +1,79 @@
+//go:build verif
+
+// Package vhook provides verification hooks (enabled: "verif" build tag).
+//
+// Event appends one JSON line per event to the file named by the environment
+// variable GOPATCH_VERIF_TRACE and/or passes it to an in-process sink; Gate
+// calls an in-process scheduler callback. Both do nothing unless a test
+// harness installed a sink / controller or set the environment variable.
+package vhook
+
+import (
+	"encoding/json"
+	"os"
+	"sync"
+)
+
+var (
+	mu     sync.Mutex
+	seq    int
+	file   *os.File
+	opened bool
+	sink   func(rec map[string]any)
+	gateFn func(point string)
+	gateMu sync.RWMutex
+)
+
+// SetSink installs an in-process event sink (nil removes it).
+func SetSink(f func(rec map[string]any)) {
+	mu.Lock()
+	defer mu.Unlock()
+	sink = f
+}
+
+// SetGate installs the scheduler callback invoked by Gate (nil removes it).
+func SetGate(f func(point string)) {
+	gateMu.Lock()
+	defer gateMu.Unlock()
+	gateFn = f
+}
+
+// Event records a named event with key/value pairs.
+func Event(name string, kv ...any) {
+	mu.Lock()
+	defer mu.Unlock()
+	if !opened {
+		opened = true
+		if p := os.Getenv("GOPATCH_VERIF_TRACE"); p != "" {
+			file, _ = os.OpenFile(p, os.O_CREATE|os.O_WRONLY|os.O_APPEND, 0o644)
+		}
+	}
+	if file == nil && sink == nil {
+		return
+	}
+	seq++
+	rec := map[string]any{"ev": name, "seq": seq}
+	for i := 0; i+1 < len(kv); i += 2 {
+		if k, ok := kv[i].(string); ok {
+			rec[k] = kv[i+1]
+		}
+	}
+	if sink != nil {
+		sink(rec)
+	}
+	if file != nil {
+		if b, err := json.Marshal(rec); err == nil {
+			file.Write(append(b, '\n'))
+		}
+	}
+}
+
+// Gate blocks at a named scheduling point while a controller is installed.
+func Gate(point string) {
+	gateMu.RLock()
+	f := gateFn
+	gateMu.RUnlock()
+	if f != nil {
+		f(point)
+	}
+}
